@@ -197,6 +197,17 @@ pub fn framed_events(cls: &str) -> Vec<Value> {
             evs.push((format!("parsed-ext-rcode-hi={hi}-opt-removed"), q));
         }
     }
+    // (3) a received message with two OPT records: one is lifted into the header, the other stays a record
+    {
+        let mut m = vec![0, 9, 0x80, 0, 0, 0, 0, 0, 0, 0, 0, 3];
+        m.extend([0, 0, 41, 4, 0xd0, 0, 0, 0, 0, 0, 0]);
+        m.extend([1, b'h', 0, 0, 1, 0, 1, 0, 0, 0, 9, 0, 4, 10, 0, 0, 1]);
+        m.extend([0, 0, 41, 2, 0, 0, 1, 0, 0, 0, 4, 0, 3, 0, 0]);
+        let bytes: &'static [u8] = Box::leak(m.into_boxed_slice());
+        if let Ok(q) = Packet::parse(bytes) {
+            evs.push(("parsed-two-opt".to_string(), q));
+        }
+    }
     evs.into_iter()
         .map(|(how, p)| json!({"ev": "Framed", "cls": format!("{cls} framed {how}"), "outs": [build_out(&p, false), build_out(&p, true)],
             "counts": [p.questions.len(), p.answers.len(), p.name_servers.len(), p.additional_records.len()]}))
